@@ -205,6 +205,7 @@ def run(rep: core.Report):
     _r11d(rep)
     _r11e(rep)
     _r11k(rep)
+    _r11l(rep)
     _r11f(rep, tu)
     _r11g(rep, tu, P)
     _r11h(rep, C)
@@ -505,6 +506,105 @@ def _r11k(rep):
                          (f"the kernel is evaluated on '{core.norm(core.src(cut), 50)}', a subset of the modes" if cut is not None else "the kernel argument does not come from the mode frequencies") + ": the tails outside the window are dropped (negligible for a Gaussian, 6 % of the weight of a Lorentzian beyond ten widths), so the DOS no longer integrates to the number of modes and the projected DOS no longer sums to the total DOS", line=c.lineno)
     if n_inst < 2:
         raise AnalysisError(f"R11k: {n_inst} smearing sites found in {DOS}, 2 confirmed by reading")
+
+
+
+def _r11l(rep):
+    """The compiled tetrahedron-DOS driver (phonopy.c): closed form of a generic output cell and the construction of
+    the irreducible-point tables it reads."""
+    from engine import celem
+
+    PC = "c/phonopy.c"
+    rep.rule("R11l", "compiled tetrahedron-method DOS: dos[i, k, j, m] grows by w_i * coef[i, m, k] * I(freq_points[j]; the 24 x 4 frequencies of band k at the irreducible points of the grid addresses grid_address[ir_grid_points[i]] + relative_grid_address[l][q]) (closed form of a generic cell by element-wise symbolic execution, library calls uninterpreted); the tables gp2ir / ir_grid_points / weights are built by one pass over the mapping table: a point that maps to itself opens a new entry with weight 1, any other point adds 1 to the weight of the entry of its image", 3)
+    tu = cast.load(PC, openmp=False)
+    fn = tu.functions.get("phpy_tetrahedron_method_dos")
+    if fn is None:
+        raise AnalysisError("anchor vanished: phpy_tetrahedron_method_dos")
+    ex = celem.ElemExec(tu, where=PC, opaque={"rgd_get_double_grid_index", "thm_get_integration_weight"}, opaque_out={"rgd_get_double_grid_address": 0})
+    top = cast.kids(cast.body(fn))
+    st = celem.State(ex, "phpy_tetrahedron_method_dos", {}, {}, 0)
+    for p_ in cast.params(fn):
+        qt = cast.qtype(p_)
+        if "*" in qt or "[" in qt:
+            st.alias[p_["name"]] = p_["name"]
+        else:
+            st.scalars[p_["name"]] = sp.Symbol(p_["name"], integer=True) if cast.is_int_type(qt) else sp.Symbol(p_["name"])
+    decls = [x for x in top if x.get("kind") == "DeclStmt"]
+    st.block(decls)
+    ptrs = [v["name"] for d in decls for v in cast.kids(d) if v.get("kind") == "VarDecl" and "*" in cast.qtype(v)]
+    for nm in ptrs:
+        st.alias[nm] = nm
+    main = [x for x in top if x.get("kind") == "ForStmt" and any(y.get("kind") == "CallExpr" and cast.callee_name(y) == "thm_get_integration_weight" for y in cast.walk(x))]
+    if len(main) != 1:
+        raise AnalysisError("R11l: the loop over irreducible grid points of phpy_tetrahedron_method_dos vanished")
+    st.block(main)
+    cells = st.cells.get("dos", [])
+    if len(cells) != 1 or len(cells[0][1]) != 4:
+        raise AnalysisError(f"R11l: {len(cells)} store patterns into dos, one over four loops expected")
+    pat, lvs, val = cells[0]
+    i, k, j, m = lvs
+    pn = [p_["name"] for p_ in cast.params(fn)]
+    S = lambda nm: sp.Symbol(nm, integer=True)
+    nb, nf, nc = S("num_band"), S("num_freq_points"), S("num_coef")
+    F = sp.Function
+    # roles of the three scratch tables, read off the closed form itself
+    ws = [a for a in val.atoms(sp.core.function.AppliedUndef) if a.func.__name__ in ptrs and a.args == (i,) and not any(a in b.args for b in val.atoms(sp.core.function.AppliedUndef) if b is not a)]
+    want_idx = sp.expand(i * nb * nf * nc + k * nc * nf + j * nc + m)
+    rep.instance("R11l", PC, "phpy_tetrahedron_method_dos", f"dos cell index {pat[0]}", sp.expand(pat[0] - want_idx) == 0, f"the output cell of (grid point i, band k, frequency point j, coefficient m) is dos[{pat[0]}], not the dense (i, k, j, m) address", line=tu.line(main[0]))
+    # expected addend with whatever names the three tables have: find them by role
+    add = sp.expand(val - F("dos")(pat[0]))
+    cands = {}
+    for a in add.atoms(sp.core.function.AppliedUndef):
+        nm = a.func.__name__
+        if nm in ptrs:
+            if a.args == (i,) and any(isinstance(b, sp.core.function.AppliedUndef) and b.func.__name__ == "grid_address" and a in b.args for b in add.atoms(sp.core.function.AppliedUndef)):
+                cands["ir"] = nm
+            elif a.args == (i,):
+                cands.setdefault("w", nm)
+            elif a.args and isinstance(a.args[0], sp.core.function.AppliedUndef) and a.args[0].func.__name__ == "rgd_get_double_grid_index":
+                cands["gp2ir"] = nm
+    if set(cands) != {"ir", "w", "gp2ir"} or len(set(cands.values())) != 3:
+        rep.instance("R11l", PC, "phpy_tetrahedron_method_dos", "roles of the three scratch tables in the closed form", False, f"the addend {str(add)[:200]} does not read a weight of grid point i, the grid point of entry i and the entry of a neighbouring grid point through three different tables (found {cands})", line=tu.line(main[0]))
+        return
+    mesh, shift = sp.Symbol("mesh"), sp.Symbol("is_shift")
+
+    def tet(l, q):
+        g = sp.Tuple(*[F("grid_address")(F(cands["ir"])(i), r) + F("relative_grid_address")(l, q, r) for r in range(3)])
+        ad = sp.Tuple(*[F("rgd_get_double_grid_address")(r, g, mesh, shift) for r in range(3)])
+        return F("frequencies")(F(cands["gp2ir"])(F("rgd_get_double_grid_index")(ad, mesh)) * nb + k)
+
+    iw = F("thm_get_integration_weight")(F("freq_points")(j), sp.Tuple(*[tet(l, q) for l in range(24) for q in range(4)]), sp.Integer(ord("I")))
+    want = iw * F(cands["w"])(i) * F("coef")(i * nc * nb + m * nb + k)
+    rep.instance("R11l", PC, "phpy_tetrahedron_method_dos", "dos[i,k,j,m] += weights[i] * coef[i,m,k] * I(freq_points[j]; frequencies[gp2ir[index(grid_address[ir[i]] + rel[l][q])] * num_band + k], 24 x 4)", sp.expand(add - want) == 0,
+                 f"the addend of the generic cell is {str(add)[:260]}…: not the integration weight of frequency point j over the 24 tetrahedra around irreducible grid point i for band k, times the multiplicity of i and the coefficient (i, m, k)", line=tu.line(main[0]))
+    # the construction of the tables
+    build = [x for x in top if x.get("kind") == "ForStmt" and x is not main[0] and any(y.get("kind") == "IfStmt" for y in cast.walk(x))]
+    if len(build) != 1:
+        raise AnalysisError("R11l: the loop that builds the irreducible-point tables vanished")
+    ifs = [y for y in cast.kids(build[0])[-1].get("inner", []) if isinstance(y, dict) and y.get("kind") == "IfStmt"] if cast.kids(build[0])[-1].get("kind") == "CompoundStmt" else []
+    ren = {cands["ir"]: "IR", cands["w"]: "W", cands["gp2ir"]: "G", pn[4]: "T"}
+    real = [x for x in build[0].get("inner", []) if isinstance(x, dict) and x.get("kind")]
+    lv = cast.text(cast.kids(real[0])[0]) if real else "?"
+    ren[lv] = "p"
+    counters = [cast.text(cast.kids(y)[0]) for y in cast.walk(build[0]) if y.get("kind") == "UnaryOperator" and y.get("opcode") == "++" and cast.strip(cast.kids(y)[0]).get("kind") == "DeclRefExpr" and cast.text(cast.kids(y)[0]) != lv]
+    if counters:
+        ren[counters[0]] = "n"
+
+    def rt(e):
+        return re.sub(r"\b[A-Za-z_]\w*\b", lambda mm: ren.get(mm.group(0), mm.group(0)), cast.text(e)).replace(" ", "")
+
+    ok_b = False
+    shown = "?"
+    if len(ifs) == 1:
+        ks_ = cast.kids(ifs[0])
+        cond = rt(ks_[0])
+        then = [rt(x) for x in (cast.kids(ks_[1]) if ks_[1].get("kind") == "CompoundStmt" else [ks_[1]])]
+        els = [rt(x) for x in (cast.kids(ks_[2]) if len(ks_) > 2 and ks_[2].get("kind") == "CompoundStmt" else ks_[2:3])]
+        shown = f"if {cond}: {then} else: {els}"
+        ok_b = cond in ("T[p]==p", "p==T[p]") and sorted(then[:-1]) == sorted(["G[p]=n", "IR[n]=p", "W[n]=1"]) and then[-1] in ("n++", "++n") and els in (["G[p]=G[T[p]]", "W[G[p]]++"], ["G[p]=G[T[p]]", "W[G[T[p]]]++"], ["G[p]=G[T[p]]", "++W[G[p]]"])
+    bound = rt(cast.kids(real[-3])[1]) if len(real) >= 3 else "?"
+    rep.instance("R11l", PC, "phpy_tetrahedron_method_dos", f"tables: for p < {bound}: {shown}", ok_b and bound == pn[12],
+                 "the pass over the mapping table does not open one entry (index, grid point, weight 1) per point that maps to itself and add 1 to the entry of the image for every other point, over all grid points: multiplicities or the grid-point -> entry table are wrong", line=tu.line(build[0]))
 
 
 # ---------------------------------------------------------------------------
@@ -996,4 +1096,8 @@ def selftest():
     b("weight case divides instead of multiplying", CF, "                    sum += IJ(2, ci, omega, v) * gn(2, omega, v);", "                    sum += IJ(2, ci, omega, v) / gn(2, omega, v);", "R11j", "get_integration_weight")
     b("matrix-vector product sign", CF, "        c[i] = a[i][0] * b[0] + a[i][1] * b[1] + a[i][2] * b[2];", "        c[i] = a[i][0] * b[0] - a[i][1] * b[1] + a[i][2] * b[2];", "R11j", "multiply_matrix_vector_dl3")
     b("total smearing DOS only over modes near the frequency point", DOS, "self._smearing_function.calc(self._frequencies - f)", "self._smearing_function.calc(self._frequencies[abs(self._frequencies - f) < 10 * self._sigma] - f)", "R11k", "calc")
+    b("tetrahedron DOS without the multiplicity", "c/phonopy.c", "                                                'I') *\n                     weights[i];", "                                                'I');", "R11l", "")
+    b("tetrahedron DOS reads the frequency of another band", "c/phonopy.c", "tetrahedra[l][q] = frequencies[ir_gps[l][q] * num_band + k];", "tetrahedra[l][q] = frequencies[ir_gps[l][q] * num_band + l];", "R11l", "dos[i,k,j,m]")
+    b("tetrahedron DOS: weight of a new irreducible point starts at 0", "c/phonopy.c", "            weights[count] = 1;", "            weights[count] = 0;", "R11l", "tables")
+    b("tetrahedron DOS: vertices of tetrahedron l taken from the transposed table", "c/phonopy.c", "                                relative_grid_address[l][q][r];", "                                relative_grid_address[q][l][r];", "R11l", "dos[i,k,j,m]")
     return V
